@@ -3,6 +3,7 @@
 -/
 import Nuts.Model.Tx
 import NutsProofs.Lemmas.Isolation
+import NutsProofs.Facts
 namespace NutsProofs.C06
 open Nuts Nuts.Model Nuts.Model.SetDS
 
@@ -228,5 +229,10 @@ theorem setStep_nodup (mem : List Bytes) (r : Rec) (h : mem.Nodup) : (setStep me
       · exact h
       · exact List.Nodup.sublist List.filter_sublist h
     · exact h
+
+/-- **regenerated tie.** On this run, the set calls of the transactional API (`sPut` one record per member, `SPop`, the two-set reads and moves) are the source lines `Nuts.Model.Tx` was written from
+(`NutsProofs.Facts.expectedTxApiStmts`). -/
+theorem C06_tx_api_regenerated : NutsGen.F.txApiStmts = NutsProofs.Facts.expectedTxApiStmts :=
+  NutsProofs.Facts.tx_api_ok
 
 end NutsProofs.C06
